@@ -338,7 +338,11 @@ func TestPropFirstBytes(t *testing.T) {
 	ev.KeepFirst("first-bytes")
 	types := []sut.Named{{Name: "@a", Text: "1"}, {Name: "@b", Text: `"x"`}}
 	roots := []string{"1", "-1.5", `"s"`, "true", "null", "{}", "[]", "{\n  \"a\": 1\n}", "[\n  1,\n  2\n]", "@a", "@a | @b", "1 // {min: 1}", "1 // note", "1 /* {min: 1} */", "{} // {additionalProperties: true}",
-		"{\n  \"a\": 1 // {min: 1} - n\n}", "[\n  1 /* {min: 1}\n */\n]", "1 # c", "{} # c", "1 // n # c", "@a // note", "@a | @b // note", "{\n  @b: 1\n}"}
+		"{\n  \"a\": 1 // {min: 1} - n\n}", "[\n  1 /* {min: 1}\n */\n]", "1 # c", "{} # c", "1 // n # c", "@a // note", "@a | @b // note", "{\n  @b: 1\n}",
+		// user comments inside and after annotations, glued roots (whatever of these the library accepts is judged)
+		"12 // {min: 1 ### c ### }", "12 // {min: 1} ### c ###", "12 /* {min: 1 ### c ### } */", "12 /* {min: 1 # c\n} */", "\"s\" // {minLength: 1 ### c ###, maxLength: 2}", "12// {min: 1}",
+		"12/* {min: 1} */", "12# c", "\"s\"// n", "true# c", "null/* n */", "{}// n", "[]# c", "@a// n", "@a# c", "@a|@b// n", "{ // {additionalProperties: true ### c ###}\n}",
+		"[ // {minItems: 0 ### c ###}\n]", "{\n  \"a\": 1 // {min: 1 ### c ### }\n}", "1 // n ### c ###", "1 ### c ### // n", "1 ### a ### ### b ###"}
 	var n, nt, bad int64
 	idx := 0
 	for _, r := range roots {
